@@ -81,4 +81,26 @@ theorem wrR_spec (s : St) (off : Nat) (l : List Nat) (hs : s.ok = true) (hrb : B
 theorem wrR_bad (s : St) (off : Nat) (l : List Nat) (h : s.r.blk.alloc < off + l.length) : (s.wrR off l).ok = false := by
   simp only [St.wrR, Blk.write_bad _ _ _ h, Bool.and_false]
 
+/-- a load inside the block of an operand: the state is unchanged, the limbs are those of the range -/
+theorem rd_spec (s : St) (x : Src) (off n : Nat) (hs : s.ok = true) (h : off + n ≤ (s.obj x).blk.alloc) :
+    (s.rd x off n).2 = s ∧ (s.rd x off n).1 = ((s.obj x).blk.limbs.drop off).take n := by
+  cases s
+  simp only at hs
+  subst hs
+  simp only [St.rd, Blk.read, Bool.true_and, decide_eq_true_eq.mpr h, and_self]
+
+theorem take_two_writes (L a : List Nat) (c : Nat) (k : Nat) (hk : k ≤ 1) :
+    ((((L.take 0 ++ a ++ L.drop (0 + a.length)).take a.length) ++ [c] ++
+      (L.take 0 ++ a ++ L.drop (0 + a.length)).drop (a.length + [c].length)).take (a.length + k)) =
+    (if k = 1 then a ++ [c] else a) := by
+  have h0 : (L.take 0 ++ a ++ L.drop (0 + a.length)).take a.length = a := take_write0 L a
+  rw [h0]
+  rcases Nat.le_one_iff_eq_zero_or_eq_one.mp hk with h | h <;> subst h
+  · simp
+  · simp
+    rw [show a ++ c :: List.drop (a.length + 1) L = (a ++ [c]) ++ List.drop (a.length + 1) L by simp]
+    rw [List.take_append_of_le_length (by simp)]
+    simp
+
+
 end Mpir.AllocSafe7
